@@ -11,7 +11,6 @@ use super::{
 };
 use alloc::vec::Vec;
 use serde::Deserialize;
-use serde_json::Deserializer;
 
 /// A connection that can only be used for reading.
 ///
@@ -121,9 +120,13 @@ impl<Read: ReadHalf> ReadConnection<Read> {
     {
         self.read_from_socket().await?;
 
-        let mut stream = Deserializer::from_slice(&self.buffer[self.msg_pos..]).into_iter::<M>();
-        let msg = stream.next();
-        let null_index = self.msg_pos + stream.byte_offset();
+        // The message is everything up to the next null byte (`read_from_socket` guarantees there
+        // is one): the end of the message must not depend on how far the JSON parser got.
+        let msg_len = self.buffer[self.msg_pos..]
+            .iter()
+            .position(|b| *b == b'\0')
+            .unwrap_or(self.read_pos - self.msg_pos);
+        let null_index = self.msg_pos + msg_len;
         let buffer = &self.buffer[self.msg_pos..null_index];
         if self.buffer[null_index + 1] == b'\0' {
             // This means we're reading the last message and can now reset the indices.
@@ -133,8 +136,8 @@ impl<Read: ReadHalf> ReadConnection<Read> {
             self.msg_pos = null_index + 1;
         }
 
-        match msg {
-            Some(Ok(msg)) => {
+        match serde_json::from_slice::<M>(buffer) {
+            Ok(msg) => {
                 // SAFETY: Since the parsing from JSON already succeeded, we can be sure that the
                 // buffer contains a valid UTF-8 string.
                 trace!("connection {}: received a message: {}", self.id, unsafe {
@@ -142,8 +145,7 @@ impl<Read: ReadHalf> ReadConnection<Read> {
                 });
                 Ok(msg)
             }
-            Some(Err(e)) => Err(e.into()),
-            None => Err(crate::Error::UnexpectedEof),
+            Err(e) => Err(e.into()),
         }
     }
 
